@@ -459,7 +459,7 @@ class Lab:
         )
         results = coordinator.run(tasks)
         # Return results in the same order as tasks
-        return {task: results[task] for task in tasks}
+        return {task: results[task] for task in tasks if task in results}
 
     def run_task(self, task: Task[ResultT], **kwargs) -> ResultT:
         """Run a single task and return its result. Supports the same keyword
